@@ -496,6 +496,9 @@ var castTexts = []string{
 	"NaN", "nan", "NAN", "nAn", "+NaN", "-nan", "Inf", "inf", "INF", "+Inf", "+inf", "-Inf", "-INF", "Infinity", "infinity", "INFINITY", "+Infinity", "-infinity", "+INFINITY", "infinit", "in", "na",
 	"t", "T", "true", "TRUE", "True", "f", "F", "false", "FALSE", "False", "tRuE", "yes", "no", "tr", "falsee", "truee", "fals",
 	"x", "hello world", "1 2", "1a", "a1", "-", "+", ".", "e", "1e", "--1", "é", "世", "true false",
+	// the ends of the float64 range and of its precision
+	"1.7976931348623157e308", "-1.7976931348623157E+308", "1.7976931348623158e308", "1.7976931348623159e308", "0x1.fffffffffffffp1023", "179769313486231570000000000000000000000000000000000000000000000000000000000000000000000000000000000000000000000000000000000000000000000000000000000000000000000000000000000000000000000000000000000000000000000000000000000000000000000000000000000000000000000000000000000000000000000000000000000000000000000",
+	"5e-324", "4.9e-324", "2e-324", "-5e-324", "1e-400", "2.2250738585072014e-308", "2.2250738585072011e-308", "9007199254740993", "0.1000000000000000055511151231257827", "1.0000000000000002", "123456789012345678901234567890",
 }
 
 func genCastText(t *rapid.T, label string) string {
